@@ -17,8 +17,8 @@ def _ext(flags: list[typing.Any], vals: list[typing.Any]) -> dict[str, typing.An
 
 @harness(
     "C16", "passthrough",
-    quick=[{"ct": ct, "flavour": fl} for ct in CONN_TYPES for fl in ("sync", "async")],
-    thorough=[{"ct": ct, "flavour": fl, "uds": u} for ct in CONN_TYPES for fl in ("sync", "async") for u in (False, True)
+    quick=[{"ct": ct, "flavour": fl} for ct in CONN_TYPES + ("h11-interim", "h2-small-window") for fl in ("sync", "async")],
+    thorough=[{"ct": ct, "flavour": fl, "uds": u} for ct in CONN_TYPES + ("h11-interim", "h2-small-window") for fl in ("sync", "async") for u in (False, True)
               if not (u and ct not in ("h11", "h11tls", "h2", "h2prior"))],
     example=dict(tc=1, tr=2, tw=3, tp=4, hc=True, hr=True, hw=True, hp=True),
     require=("connect-op", "read-op", "write-op"),
@@ -38,9 +38,35 @@ def passthrough(tc: int, tr: int, tw: int, tp: int, hc: bool, hr: bool, hw: bool
     kw: dict[str, typing.Any] = {}
     if shard("uds", False):
         kw["uds"] = "/run/sim.sock"
-    su = Setup(ct, shard("flavour", "sync") == "async", **kw)
     t = _ext([hc, hr, hw, hp], [tc, tr, tw, tp])
-    o = su.api.request(su.pool, "POST", su.url("t"), content=b"body", extensions={"timeout": t})
+    is_async = shard("flavour", "sync") == "async"
+    body = b"body"
+    if ct == "h11-interim":
+        # two interim responses and the final head arrive in separate reads
+        from ..vnet.servers import Resp
+
+        spec = Resp(headers=[(b"Server", b"s")], body=b"ok",
+                    interim=[(100, b"Continue", []), (103, b"Early Hints", [(b"Link", b"</a>")])])
+        su = Setup("h11", is_async, responder=lambda req, n: spec, cuts=[25, 30, 60, 70], **kw)
+        ct = "h11"
+    elif ct == "h2-small-window":
+        # the upload exceeds the server's 5-byte window: the client has to
+        # read WINDOW_UPDATE frames in the middle of sending the body
+        import h2.settings
+
+        from .c13_flow import Credit
+
+        su = Setup("h2prior", is_async, h2_policy=Credit("immediate"),
+                   h2_settings={h2.settings.SettingCodes.INITIAL_WINDOW_SIZE: 5}, **kw)
+        w = su.api.request(su.pool, "GET", su.url("warm"), extensions={"timeout": t})
+        if not P.check(w.ok, "warm-up", "timeout:warmup"):
+            return
+        body = b"thirteen-byte"
+        ct = "h2prior"
+        P.cover("flow-control-wait")
+    else:
+        su = Setup(ct, is_async, **kw)
+    o = su.api.request(su.pool, "POST", su.url("t"), content=body, extensions={"timeout": t})
     if not P.check(o.ok, "request-ok", lambda: f"request failed {o.kind()}"):
         return
     all_set = hc and hr and hw and hp
